@@ -75,6 +75,10 @@ VIEWS = {
         lambda a: np.einsum("ii->i", a),
         lambda s: len(s) == 2 and s[0] == s[1],
     ),
+    "rsF": ("mg.reshape({0}, {0}.shape[::-1] if {0}.ndim == 2 else (-1, 1), constant=False)",
+            lambda t: __import__("mygrad").reshape(t, t.shape[::-1] if t.ndim == 2 else (-1, 1), constant=False),
+            lambda a: a.reshape(a.shape[::-1] if a.ndim == 2 else (-1, 1)), lambda s: len(s) in (1, 2)),
+    "rsT": ("mg.reshape({0}, (-1,), constant=True)", lambda t: __import__("mygrad").reshape(t, (-1,), constant=True), lambda a: a.reshape(-1), lambda s: len(s) >= 1),
     "sq": ("{0}.squeeze()", lambda t: t.squeeze(), lambda a: a.squeeze(), lambda s: 1 in s),
 }
 
@@ -92,6 +96,9 @@ OPS1 = {
     "maxall": ("{0}.max()", lambda t: t.max(), lambda a: a.reshape(-1)[np.argmax(a.real)], lambda s: len(s) >= 1),
     "minall": ("{0}.min()", lambda t: t.min(), lambda a: a.reshape(-1)[np.argmin(a.real)], lambda s: len(s) >= 1),
     "max0": ("{0}.max(axis=0)", lambda t: t.max(axis=0), lambda a: np.take_along_axis(a, np.argmax(a.real, axis=0)[None], 0)[0], lambda s: len(s) >= 1),
+    "mseq3": ("mg.multiply_sequence({0}, {0}, {0})", lambda t: __import__("mygrad").multiply_sequence(t, t, t), lambda a: a * a * a, lambda s: True),
+    "mseq4": ("mg.multiply_sequence({0}, {0}, {0}, {0})", lambda t: __import__("mygrad").multiply_sequence(t, t, t, t), lambda a: a * a * a * a, lambda s: True),
+    "aseq3": ("mg.add_sequence({0}, {0}, {0})", lambda t: __import__("mygrad").add_sequence(t, t, t), lambda a: a + a + a, lambda s: True),
     "sumc": ("mg.sum({0}, constant=True)", lambda t: __import__("mygrad").sum(t, constant=True), lambda a: np.asarray(a.sum()), lambda s: True),
     "sum": ("{0}.sum()", lambda t: t.sum(), lambda a: a.sum(), lambda s: True),
     "sum0": (
@@ -121,6 +128,14 @@ OPS2 = {
     "mul": ("{0} * {1}", operator.mul, operator.mul),
     "div": ("{0} / {1}", operator.truediv, operator.truediv),
     "pow": ("{0} ** {1}", operator.pow, operator.pow),
+    "addw": ("mg.add({0}, {1}, where=alt_mask(np.broadcast_shapes(np.shape({0}), np.shape({1}))), out=np.zeros(np.broadcast_shapes(np.shape({0}), np.shape({1}))))",
+             lambda x, y: _mg("add")(x, y, where=alt_mask(np.broadcast_shapes(np.shape(x), np.shape(y))), out=np.zeros(np.broadcast_shapes(np.shape(x), np.shape(y)))),
+             lambda x, y: np.where(alt_mask(np.broadcast_shapes(np.shape(x), np.shape(y))), x + y, 0.0)),
+    "subw": ("mg.subtract({0}, {1}, where=alt_mask(..., 1), out=np.zeros(...))",
+             lambda x, y: _mg("subtract")(x, y, where=alt_mask(np.broadcast_shapes(np.shape(x), np.shape(y)), 1), out=np.zeros(np.broadcast_shapes(np.shape(x), np.shape(y)))),
+             lambda x, y: np.where(alt_mask(np.broadcast_shapes(np.shape(x), np.shape(y)), 1), x - y, 0.0)),
+    "mseq_xyx": ("mg.multiply_sequence({0}, {1}, {0})", lambda x, y: _mg("multiply_sequence")(x, y, x), lambda x, y: x * y * x),
+    "aseq_xyx": ("mg.add_sequence({0}, {1}, {0})", lambda x, y: _mg("add_sequence")(x, y, x), lambda x, y: x + y + x),
     "matmul": ("{0} @ {1}", operator.matmul, operator.matmul),
     "max": ("mg.maximum({0}, {1})", _mg("maximum"), _cmax),
     "min": ("mg.minimum({0}, {1})", _mg("minimum"), _cmin),
@@ -142,6 +157,7 @@ INDICES = {
     "advr": ("[0, 0]", lambda: [0, 0], lambda s: len(s) >= 1 and s[0] >= 1),
     "advr3": ("[1, 0, 1]", lambda: [1, 0, 1], lambda s: len(s) >= 1 and s[0] >= 2),
     "bool": ("{m}", None, lambda s: len(s) >= 1),  # alternating mask of target's shape
+    "advrT": ("mg.tensor([0, 0, 1])", lambda: [0, 0, 1], lambda s: len(s) >= 1 and s[0] >= 2),  # an integer *Tensor* as index, with a repeat
 }
 
 
@@ -152,6 +168,9 @@ def alt_mask(shape, phase=0):
         return np.zeros(shape, dtype=bool)
     if phase == "T":
         return np.ones(shape, dtype=bool)
+    if phase == "B":  # a lower-dimensional mask that has to broadcast against the target (trailing axis only)
+        k = shape[-1] if len(shape) else 1
+        return (np.arange(k) % 2 == 0) if len(shape) else np.array(True)
     return (np.arange(n).reshape(shape) + phase) % 2 == 0
 
 
@@ -257,10 +276,13 @@ class Model:
     def _view(self, out, src, vname):
         f = VIEWS[vname][2]
         r = np.asarray(f(self.a[src]))
+        const = {"rsF": False, "rsT": True}.get(vname, self.const[src])
+        if not np.issubdtype(r.dtype, np.floating) and not np.issubdtype(r.dtype, np.complexfloating):
+            const = True
         if ub(r) is self._fam_ub[self.fam[src]]:
-            self._new_member(out, r, f(self.tag[src]), src, self.const[src])
+            self._new_member(out, r, f(self.tag[src]), src, const)
         else:
-            self._new_owner(out, r, self.const[src], (src,))
+            self._new_owner(out, r, const, (src,))
 
     def _op1(self, out, src, oname):
         r = np.asarray(OPS1[oname][2](self.a[src]))
@@ -322,7 +344,7 @@ class Model:
             r = f(x, y)
             self.a[tgt][...] = r
         else:
-            m = alt_mask(self.a[tgt].shape, mask)
+            m = np.broadcast_to(alt_mask(self.a[tgt].shape, mask), self.a[tgt].shape)
             r = f(x, y)
             r = np.broadcast_to(r, self.a[tgt].shape)
             self.a[tgt][m] = r[m]
@@ -385,6 +407,10 @@ class Model:
         return name
 
 
+class _Sub(np.ndarray):
+    pass
+
+
 # ------------------------------------------------------------------ the implementation side
 class Impl:
     def __init__(self, init, seed=0):
@@ -395,7 +421,10 @@ class Impl:
         self.order = []
         for name, shape, offset, const, *rest in init:
             arr = make_leaf(shape, offset, seed, rest)
-            if "ro" in [o for o in rest if isinstance(o, str)]:
+            if "sub" in [o for o in rest if isinstance(o, str)]:
+                # memory owned by an ndarray-subclass instance (as with np.memmap / np.matrix), wrapped without copying
+                self.t[name] = mg.tensor(arr.view(_Sub).copy(), constant=const, copy=False)
+            elif "ro" in [o for o in rest if isinstance(o, str)]:
                 arr.flags.writeable = False  # natively read-only memory, wrapped without copying
                 self.t[name] = mg.tensor(arr, constant=const, copy=False)
             else:
@@ -427,6 +456,8 @@ class Impl:
     def index_obj(self, tgt, iname):
         if iname == "bool":
             return alt_mask(self.t[tgt].shape)
+        if iname == "advrT":
+            return self.mg.tensor([0, 0, 1])
         return INDICES[iname][1]()
 
     def _set(self, tgt, iname, val):
@@ -543,6 +574,7 @@ def script(init, history, seed=0, tail=""):
         "    n = int(np.prod(shape)) if len(shape) else 1",
         "    if phase == 'F': return np.zeros(shape, dtype=bool)",
         "    if phase == 'T': return np.ones(shape, dtype=bool)",
+        "    if phase == 'B': return (np.arange(shape[-1]) % 2 == 0) if len(shape) else np.array(True)",
         "    return (np.arange(n).reshape(shape) + phase) % 2 == 0",
     ]
     for name, shape, offset, const, *rest in init:
